@@ -1,4 +1,6 @@
 import HypatiaProofs.Lemmas.SetOps
+import HypatiaProofs.Lemmas.SetOpsWF
+import HypatiaProofs.Lemmas.Bisect
 
 /-!
 # C17  Weighted set algebra and N-best selection equal their definitions
@@ -78,6 +80,26 @@ theorem c17_inter_keys (L : List (Option (WMap ℝ) × ℝ)) (r : WMap ℝ) (h :
   by_cases hh : present L ≠ [] ∧ ∀ p ∈ present L, k ∈ AMap.keys p.1
   · rw [if_pos hh]; exact ⟨fun _ => hh, fun _ => rfl⟩
   · rw [if_neg hh]; exact ⟨fun h => by simp at h, fun h => absurd h hh⟩
+
+/-- **The results are maps.**  When every operand has pairwise distinct keys (what a BTrees bucket guarantees)
+so has the result – and every intermediate of the merge loop and of the intersection chain: the association
+lists of the model are maps, `get` reads *the* entry of a key. -/
+theorem c17_union_is_map (L : List (WMap ℝ × ℝ)) (hwf : ∀ p ∈ L, AMap.WF p.1) (r : WMap ℝ)
+    (h : massUnion L = .ok r) : (AMap.keys r).Nodup := massUnion_wf L hwf r h
+
+theorem c17_inter_is_map (L : List (Option (WMap ℝ) × ℝ)) (hwf : ∀ p ∈ L, ∀ m, p.1 = some m → AMap.WF m)
+    (r : WMap ℝ) (h : massInter L = .ok r) : (AMap.keys r).Nodup := massInter_wf L hwf r h
+
+/-- …so the result is determined as a *set of entries*: `(k, v)` is an entry exactly when the definition gives
+`v` at `k` -/
+theorem c17_union_entries (L : List (WMap ℝ × ℝ)) (hwf : ∀ p ∈ L, AMap.WF p.1) (r : WMap ℝ)
+    (h : massUnion L = .ok r) (k : Int) (v : ℝ) : (k, v) ∈ r ↔ unionAt L k = some v := by
+  obtain ⟨r', hr, hg⟩ := c17_union_value L
+  rw [h] at hr; injection hr with hr; subst hr
+  rw [← hg k]
+  constructor
+  · exact fun hm => AMap.get_of_mem (massUnion_wf L hwf r h) hm
+  · exact fun hm => AMap.mem_of_get hm
 
 /-- **Order independence of the union**: permuting the list does not change any value. -/
 theorem c17_union_perm (L L' : List (WMap ℝ × ℝ)) (hp : L.Perm L') :
@@ -198,6 +220,27 @@ theorem c17_nbest_len (o : OrdLaws σ) (N : Int) (s : State ι σ) (h : new N = 
   refine ⟨by simp [len, getBest], ?_⟩
   have := hr.len
   unfold len; omega
+
+/-- **`bisect_left`.**  The model inserts by a linear scan (`insertAsc`: in front of the first entry that is not
+`< score`); the code calls `bisect.bisect_left` – CPython's binary search, `bisectLeft`
+(`HypatiaModel/Bisect.lean`).  After any sequence of operations on a new collector the list is ascending, the
+binary search returns the number of held entries with a smaller score, and inserting at that index is exactly
+what the model's scan does. -/
+theorem c17_nbest_bisect (o : OrdLaws σ) (N : Int) (s : State ι σ) (h : new N = .ok s)
+    (ops : List (Op ι σ)) (p : ι × σ) :
+    insertAsc p (run s ops).l = insertBisect p (run s ops).l ∧
+    bisectLeft ((run s ops).l.map (·.2)) p.2 0 (run s ops).l.length =
+      (((run s ops).l.map (·.2)).filter (fun x => decide (x < p.2))).length := by
+  obtain ⟨hi, _, _⟩ := inv_new N s h
+  have hr := inv_run o s ops hi
+  obtain ⟨h1, h2⟩ := insertAsc_eq_insertBisect o p (run s ops).l hr.asc
+  exact ⟨h1, by rw [h2, scanPos_eq_count o p.2 _ (asc_scores hr.asc)]⟩
+
+/-- the binary search itself, on any ascending list and any window containing the answer -/
+theorem c17_bisect_left (o : OrdLaws σ) (x : σ) (a : List σ) (hasc : a.Pairwise (· ≤ ·)) :
+    bisectLeft a x 0 a.length = (a.filter (fun s => decide (s < x))).length := by
+  rw [bisectLeft_eq_scanPos o x a hasc a.length 0 a.length rfl (Nat.zero_le _) (scanPos_le x a) (Nat.le_refl _),
+    scanPos_eq_count o x a hasc]
 end
 
 /-! ### the hypotheses are satisfiable, the statements are not vacuous -/
@@ -210,6 +253,13 @@ example : NBest.getBest (NBest.addMany ({ cap := 2 } : NBest.State Int Int) [(1,
 example : NBestSpec.best 2 ([(1, 5), (2, 7), (3, 5), (4, 7)] : List (Int × Int)) = [(2, 7), (4, 7)] := by decide
 example : NBestSpec.best 3 ([(1, 5), (2, 7), (3, 5), (4, 7)] : List (Int × Int)) = [(2, 7), (4, 7), (1, 5)] := by
   decide
+
+/-- binary search on `[1, 3, 3, 7]`: positions of 3 (in front of the equal entries), 4, 0 and 9 -/
+example : NBest.bisectLeft [1, 3, 3, 7] (3 : Int) 0 4 = 1 ∧ NBest.bisectLeft [1, 3, 3, 7] (4 : Int) 0 4 = 3 ∧
+    NBest.bisectLeft [1, 3, 3, 7] (0 : Int) 0 4 = 0 ∧ NBest.bisectLeft [1, 3, 3, 7] (9 : Int) 0 4 = 4 ∧
+    NBest.insertBisect ((9 : Int), (3 : Int)) [(1, 1), (2, 3), (3, 3), (4, 7)] =
+      [(1, 1), (9, 3), (2, 3), (3, 3), (4, 7)] := by
+  refine ⟨?_, ?_, ?_, ?_, ?_⟩ <;> simp [NBest.bisectLeft, NBest.insertBisect]
 
 /-- three maps, non-1 weights, a key in all, a key in one -/
 example : ∃ r, massUnion [([(1, 2), (2, 1)], (3 : ℝ)), ([(1, 5)], 1), ([(1, 1), (3, 4)], 2)] = .ok r ∧
